@@ -1344,6 +1344,12 @@ samples.append({"load_conf": {"fragments_alphabetical": load_cases[0]["repl"]["a
 samples.append({"non_associativity_witness_on_code": assoc_witness})
 
 shutil.rmtree(WORK, ignore_errors=True)
+# ---- the glue model of the public functions (Model files added later, see manifest text) tied to the library on every run:
+#      inputs generated here, the library run on them, the model evaluated on the same inputs by vm_compute inside coqc
+import ties.tie_C20 as _tie_glue  # noqa: E402
+_tie_n = _tie_glue.run(chk, arim, rng, Q)
+chk.cov["glue_model_tie_comparisons"] = int(_tie_n or 0)
+
 chk.finish(
     evaluations=evaluations,
     distinct_nontrivial=len(nontrivial),
